@@ -7,13 +7,12 @@ import (
 	"strings"
 )
 
+// getFullPath returns the absolute path of a file. When appendExt is
+// true, filename is the name of a template: it is relative to the
+// template directory and has no extension.
 func getFullPath(filename string, appendExt bool) (string, error) {
-	if usesTemplates {
-		filename = joinPaths(userConfig.TemplateDir, filename)
-	}
-
 	if appendExt {
-		filename += userConfig.TemplateExt
+		filename = joinPaths(userConfig.TemplateDir, filename) + userConfig.TemplateExt
 	}
 
 	absPath, err := filepath.Abs(filename)
